@@ -874,6 +874,7 @@ func c27CheckJSON(groups []*command.CDCIndexedEventGroup, exp []c27Change, idsOn
 }
 
 type c27Replay struct {
+	Part  string   `json:"part,omitempty"`
 	Stmts []string `json:"stmts"`
 	SQL   []string `json:"sql"`
 	Tx    bool     `json:"tx"`
@@ -1132,6 +1133,9 @@ func TestVerif_C27(t *testing.T) {
 		var rp c27Replay
 		if err := json.Unmarshal(raw, &rp); err != nil {
 			t.Fatal(err)
+		}
+		if rp.Part != "" && rp.Part != "enum" {
+			t.Skip("replay is for another part")
 		}
 		var prog []c27Stmt
 		for _, n := range rp.Stmts {
